@@ -85,3 +85,33 @@ impl<K, S> IndexSet<K, S> {
     #[verifier::external_body] pub fn insert(&mut self, k: K) -> bool { unimplemented!() }
 }
 #[verifier::external_body] pub fn unreachable_abort() -> ! { unimplemented!() }
+
+// ---- the consumer: the iteration is seen as the sequence of items it will yield (R7: ParallelHeapIter::from(..) is
+// replaced by this ghost-sequence iterator; ParallelHeapIter::next itself is verified above)
+impl vstd::std_specs::cmp::PartialEqSpecImpl for HeapCellValue {
+    open spec fn obeys_eq_spec() -> bool { true }
+    open spec fn eq_spec(&self, other: &HeapCellValue) -> bool { self.bits == other.bits }
+}
+impl PartialEq for HeapCellValue { fn eq(&self, other: &HeapCellValue) -> (r: bool) ensures r == (self.bits == other.bits) { self.bits == other.bits } }
+pub struct MachineState { pub heap: Heap }
+impl MachineState {
+    pub uninterp spec fn stored(&self, c: HeapCellValue) -> HeapCellValue;
+    #[verifier::external_body] pub fn store(&self, c: HeapCellValue) -> (r: HeapCellValue) ensures r == self.stored(c) { unimplemented!() }
+}
+pub uninterp spec fn pair_items(m: &MachineState, h1: HeapCellValue, h2: HeapCellValue) -> Seq<TermPair>;
+#[verifier::external_body]
+pub struct TermPairs { _p: usize }
+impl TermPairs {
+    pub uninterp spec fn items(&self) -> Seq<TermPair>;
+    pub uninterp spec fn pos(&self) -> int;
+    #[verifier::external_body]
+    pub fn from(m: &MachineState, h1: HeapCellValue, h2: HeapCellValue) -> (r: TermPairs) ensures r.items() == pair_items(m, h1, h2), r.pos() == 0 { unimplemented!() }
+    #[verifier::external_body]
+    pub fn next(&mut self) -> (r: Option<TermPair>)
+        requires 0 <= old(self).pos() <= old(self).items().len()
+        ensures final(self).items() == old(self).items(), 0 <= final(self).pos() <= final(self).items().len(),
+            old(self).pos() == old(self).items().len() ==> r is None && final(self).pos() == old(self).pos(),
+            old(self).pos() < old(self).items().len() ==> r == Some(old(self).items()[old(self).pos()]) && final(self).pos() == old(self).pos() + 1,
+    { unimplemented!() }
+}
+pub assume_specification [Ordering::is_eq] (o: Ordering) -> (r: bool) ensures r == (o is Equal);
